@@ -290,8 +290,7 @@ Proof.
     intros H _ HW; inversion H; subst. eapply WI_deliver_user; [exact E|]. change s1 with (fst (s1, k)). rewrite <- En. apply WI_next_serial. exact HW.
   - destruct (next_serial s) as [s1 k] eqn:En. destruct (deliver_user s1 t (a_tok a) (UProbe n k)) as [s2 o2] eqn:E.
     intros H _ HW; inversion H; subst. eapply WI_deliver_user; [exact E|]. change s1 with (fst (s1, k)). rewrite <- En. apply WI_next_serial. exact HW.
-  - destruct (snd =? rNone); [intros H; inversion H; subst; auto|].
-    destruct (next_serial s) as [s1 k] eqn:En. destruct (deliver_user s1 snd (a_tok a) (UProbe n k)) as [s2 o2] eqn:E.
+  - destruct (next_serial s) as [s1 k] eqn:En. destruct (deliver_user s1 snd (a_tok a) (UProbe n k)) as [s2 o2] eqn:E.
     intros H _ HW; inversion H; subst. eapply WI_deliver_user; [exact E|]. change s1 with (fst (s1, k)). rewrite <- En. apply WI_next_serial. exact HW.
   - destruct (next_serial s) as [s1 k] eqn:En. destruct (send_each s1 (a_tok a) (a_children a) n k) as [s2 o2] eqn:E.
     intros H _ HW; inversion H; subst. eapply WI_send_each; [exact E|]. change s1 with (fst (s1, k)). rewrite <- En. apply WI_next_serial. exact HW.
@@ -651,8 +650,7 @@ Proof.
     intros H; inversion H; subst. apply nt_cons; [reflexivity|eapply nt_deliver_user; exact E].
   - destruct (next_serial s) as [s1 k]. destruct (deliver_user s1 t (a_tok a) (UProbe n k)) as [s2 o2] eqn:E.
     intros H; inversion H; subst. apply nt_cons; [reflexivity|eapply nt_deliver_user; exact E].
-  - destruct (snd =? rNone); [intros H; inversion H; subst; reflexivity|].
-    destruct (next_serial s) as [s1 k]. destruct (deliver_user s1 snd (a_tok a) (UProbe n k)) as [s2 o2] eqn:E.
+  - destruct (next_serial s) as [s1 k]. destruct (deliver_user s1 snd (a_tok a) (UProbe n k)) as [s2 o2] eqn:E.
     intros H; inversion H; subst. apply nt_cons; [reflexivity|eapply nt_deliver_user; exact E].
   - destruct (next_serial s) as [s1 k]. destruct (send_each s1 (a_tok a) (a_children a) n k) as [s2 o2] eqn:E.
     intros H; inversion H; subst. apply nt_app; [apply nt_map_OS|eapply nt_send_each; exact E].
